@@ -653,7 +653,9 @@ impl Scenario for C05 {
 pub struct TCase {
   /// 0 = from_iter(inners).merge_all_threads(MAX), 1 = merge_all_threads(#inners), 2 = flat_map_threads,
   /// 3 = concat_all_threads, 4 = merge_all_threads(#inners - 1): inners wait for a slot there, and
-  /// what a hot inner emits before it is subscribed is legitimately lost (relaxed oracle)
+  /// what a hot inner emits before it is subscribed is legitimately lost (relaxed oracle);
+  /// 5 = hot outer driven by its own thread + merge_all_threads(1), 6 = the same with limit 2: an
+  /// inner's thread starts emitting once the inner has been subscribed (strict oracle)
   form: u8,
   /// one more thread unsubscribes the flattened stream (relaxed oracle)
   #[serde(default)]
@@ -664,6 +666,24 @@ pub struct TCase {
 }
 
 pub struct C05Threads;
+
+/// An inner observable that tells its driving thread when it has been
+/// subscribed (forms 5 and 6: hot outer; an inner starts emitting only then, so
+/// nothing is legitimately lost and the strict oracle applies).
+#[derive(Clone)]
+struct WaitInner {
+  hot: SubjectThreads<Val, E>,
+  subscribed: Arc<std::sync::atomic::AtomicBool>,
+}
+impl<O: Observer<Val, E> + Send + 'static> Observable<Val, E, O> for WaitInner {
+  type Unsub = <SubjectThreads<Val, E> as Observable<Val, E, O>>::Unsub;
+  fn actual_subscribe(self, o: O) -> Self::Unsub {
+    let u = self.hot.actual_subscribe(o);
+    self.subscribed.store(true, SeqCst);
+    u
+  }
+}
+impl ObservableExt<Val, E> for WaitInner {}
 
 impl Scenario for C05Threads {
   fn name(&self) -> &'static str {
@@ -697,6 +717,11 @@ impl Scenario for C05Threads {
       1 => Strategy::Seq { den: 3 },
       _ => Strategy::Pct { d: rng.range(1, 3) as u8, k: 40 },
     };
+    // one case in five: hot outer on its own thread, every inner completes
+    if rng.chance(1, 5) {
+      let inners = (0..rng.range(2, 3)).map(|_| (rng.below(3), 1u8)).collect();
+      return serde_json::to_value(TCase { form: 5 + rng.below(2) as u8, unsub: false, inners, sched: SchedSpec::Seeded { seed: rng.next_u64(), strategy } }).unwrap();
+    }
     // one case in four is the teardown race: three short inners that all complete, a
     // concurrency limit below their number and an unsubscribing thread
     if rng.chance(1, 4) {
@@ -708,7 +733,7 @@ impl Scenario for C05Threads {
   fn run(&self, case: &Value) -> Result<Outcome, String> {
     use crate::threadsim::*;
     let case: TCase = serde_json::from_value(case.clone()).map_err(|e| e.to_string())?;
-    if case.inners.is_empty() || case.inners.len() > 4 || case.form > 4 || case.inners.iter().any(|(n, t)| *n > 6 || *t > 2) {
+    if case.inners.is_empty() || case.inners.len() > 4 || case.form > 6 || (case.form >= 5 && (case.unsub || case.inners.iter().any(|(_, t)| *t != 1))) || case.inners.iter().any(|(n, t)| *n > 6 || *t > 2) {
       return Err("bad shape".into());
     }
     let shr = Shared::new();
@@ -717,7 +742,12 @@ impl Scenario for C05Threads {
     let p = Probe(log.clone());
     let m = case.inners.len();
     let subjects: Vec<SubjectThreads<Val, E>> = (0..m).map(|_| SubjectThreads::default()).collect();
+    let hot_outer = case.form >= 5;
+    let flags: Vec<Arc<std::sync::atomic::AtomicBool>> = (0..m).map(|_| Default::default()).collect();
+    let outer = SubjectThreads::<WaitInner, E>::default();
     let sub: BoxSubscriptionThreads = match case.form {
+      5 => BoxSubscriptionThreads::new(outer.clone().merge_all_threads(1).actual_subscribe(p)),
+      6 => BoxSubscriptionThreads::new(outer.clone().merge_all_threads(2).actual_subscribe(p)),
       0 => BoxSubscriptionThreads::new(observable::from_iter(subjects.clone()).on_error_map(|_| 0).merge_all_threads(usize::MAX).actual_subscribe(p)),
       1 => BoxSubscriptionThreads::new(observable::from_iter(subjects.clone()).on_error_map(|_| 0).merge_all_threads(m).actual_subscribe(p)),
       2 => {
@@ -727,19 +757,34 @@ impl Scenario for C05Threads {
       3 => BoxSubscriptionThreads::new(observable::from_iter(subjects.clone()).on_error_map(|_| 0).concat_all_threads().actual_subscribe(p)),
       _ => BoxSubscriptionThreads::new(observable::from_iter(subjects.clone()).on_error_map(|_| 0).merge_all_threads((m - 1).max(1)).actual_subscribe(p)),
     };
-    let relaxed = case.form >= 3 || case.unsub;
+    let relaxed = (case.form >= 3 && case.form <= 4) || case.unsub;
     let sub = Arc::new(Mutex::new(Some(sub)));
     let unsub_ret: Arc<Mutex<Option<u64>>> = Default::default();
     // (inner, item, invoke, ret) / (inner, terminal kind, invoke, ret)
     let oplog: Arc<Mutex<Vec<(usize, i64, u64, u64)>>> = Default::default();
-    let ts = TSim::new(shr.clone(), &case.sched, m + case.unsub as usize, 0, 10_000);
+    let ts = TSim::new(shr.clone(), &case.sched, m + case.unsub as usize + hot_outer as usize, 0, 20_000);
+    let never_started: Arc<Mutex<Vec<usize>>> = Default::default();
     let mut bodies: Vec<Body> = Vec::new();
     for (k, (n, term)) in case.inners.iter().enumerate() {
       let mut s = subjects[k].clone();
       let (n, term) = (*n, *term);
       let oplog = oplog.clone();
+      let flag = flags[k].clone();
+      let never_started = never_started.clone();
       bodies.push(Box::new(move || {
         let sh = shared();
+        if hot_outer {
+          // wait (in simulated time) until the flattening operator has subscribed this inner
+          let mut waited = 0;
+          while !flag.load(SeqCst) {
+            waited += 1;
+            if waited > 40 {
+              never_started.lock().unwrap().push(k);
+              return;
+            }
+            harness_sleep_ms(1);
+          }
+        }
         for i in 0..n {
           let item = (k as i64 + 1) * 100 + i as i64;
           let invoke = sh.stamp();
@@ -758,6 +803,17 @@ impl Scenario for C05Threads {
         oplog.lock().unwrap().push((k, -(term as i64), invoke, ret));
       }));
     }
+    if hot_outer {
+      let mut outer = outer.clone();
+      let inners: Vec<WaitInner> = (0..m).map(|k| WaitInner { hot: subjects[k].clone(), subscribed: flags[k].clone() }).collect();
+      bodies.push(Box::new(move || {
+        for i in inners {
+          outer.next(i);
+          harness_yield("between-inners");
+        }
+        outer.complete();
+      }));
+    }
     if case.unsub {
       let sub = sub.clone();
       let unsub_ret = unsub_ret.clone();
@@ -771,7 +827,7 @@ impl Scenario for C05Threads {
       }));
     }
     let rep = ts.run(bodies);
-    let site = ["merge_all_threads(MAX)", "merge_all_threads(n)", "flat_map_threads", "concat_all_threads", "merge_all_threads(n-1)"][case.form as usize].to_string();
+    let site = ["merge_all_threads(MAX)", "merge_all_threads(n)", "flat_map_threads", "concat_all_threads", "merge_all_threads(n-1)", "merge_all_threads(1), hot outer", "merge_all_threads(2), hot outer"][case.form as usize].to_string();
     let recs = log.records();
     let got: Vec<Ev> = recs.iter().map(|r| r.ev.clone()).collect();
     let ops = oplog.lock().unwrap().clone();
@@ -787,6 +843,8 @@ impl Scenario for C05Threads {
       bad("c05.livelock", "step budget exhausted".into());
     } else if let Some((t, msg)) = rep.panics.first() {
       bad("c05.panic", format!("thread {} panicked: {}", t, msg));
+    } else if let Some(k) = never_started.lock().unwrap().first() {
+      bad("c05.inner-never-started", format!("inner {} was handed to the operator, every other thread went on for 40 simulated ms, and it has not been subscribed (inners {:?}; delivered [{}])", k, case.inners, fmt_trace(&got)));
     } else if log.overlap.load(SeqCst) {
       bad("c05.overlap", "the subscriber was entered on two threads at once".into());
     } else if let Some(i) = grammar_violation(&got) {
